@@ -243,16 +243,12 @@ func c07Run(ctx *Ctx, t *tape.Tape) *report.Violation {
 		reuseEnc:    t.Chance(1, 4),
 		altLogStyle: t.Bool(),
 	}
-	prog := world.GenProgram(t, world.GenCfg{MaxItems: 10, Abstract: true, EncOnly: true, Observers: true, ForceReset: true})
-	if len(prog) > 140 {
-		// bound the quadratic cut check; cut where no path is open
-		modes := modesOf(prog)
-		n := 140
-		for n > 0 && modes[n] {
-			n--
-		}
-		prog = prog[:n]
-	}
+	prog := world.GenProgram(t, world.GenCfg{MaxItems: 10, Abstract: true, EncOnly: true, Observers: true, ForceReset: true, LongRuns: 3})
+	// the cut check decodes the whole prefix at every styling-mode boundary:
+	// bound the number of cuts (not the length of paths, inside which there is
+	// at most one cut)
+	const maxCuts = 150
+	cutsDone := 0
 	midPathCut := -1
 	if t.Chance(1, 2) {
 		modes := modesOf(prog)
@@ -326,7 +322,8 @@ func c07Run(ctx *Ctx, t *tape.Tape) *report.Violation {
 			c, adj, inc := classOfAbstract(o)
 			m.Step(c, adj, inc)
 		}
-		if m.State == model.EncStyling || i+1 == midPathCut {
+		if (m.State == model.EncStyling && cutsDone < maxCuts) || i+1 == midPathCut {
+			cutsDone++
 			b, err := e.Bytes()
 			if err != nil {
 				return fail(viol("C07", "pipeline", "after step #%d %s of a well-formed program the Encoder reports %v", i, o.String(), err))
